@@ -68,6 +68,7 @@ def handle (line : String) : String :=
   | "ty" :: rest => TyDrv.handle rest
   | "lex" :: rest => LexDrv.handle rest
   | "pratt" :: rest => PrattDrv.handle rest
+  | "prattw" :: rest => PrattDrv.handleW rest
   | ["fmtk"] => LayoutDrv.handleK ""
   | ["fmtk", w] => LayoutDrv.handleK w
   | ["fmtm"] => LayoutDrv.handleM ""
